@@ -20,6 +20,7 @@ PRELUDE = r'''
 int printf(const char *, ...);
 void *memset(void *, int, unsigned long);
 #define OFF(T, m) ((int)(unsigned long)&(((T *)0)->m))
+struct P16 { long a, b; };
 static void img(void *p, int n, int *first, int *cnt, int *last) {
   unsigned char *b = p; *first = -1; *cnt = 0; *last = -1;
   for (int i = 0; i < n * 8; i++)
@@ -34,7 +35,11 @@ def member_decl(mid, j, i):
                   double="double %s;", ldouble="long double %s;", ptr="void *%s;", char3="char %s[3];",
                   int2="int %s[2];", s_ci="struct {char a; int b;} %s;", s_c3="struct {char a[3];} %s;",
                   u_lc="union {long a; char b;} %s;", sp_ci="struct __attribute__((packed)) {char a; int b;} %s;",
-                  s16_i="struct __attribute__((aligned(16))) {int a;} %s;", al8_char="_Alignas(8) char %s;")
+                  s16_i="struct __attribute__((aligned(16))) {int a;} %s;", al8_char="_Alignas(8) char %s;",
+                  alS_char="_Alignas(struct P16) char %s;", alI2_char="_Alignas(int[2]) char %s;",
+                  al28_char="_Alignas(2) _Alignas(8) char %s;", al82_char="_Alignas(8) _Alignas(2) char %s;",
+                  flex_char="char %s[];", flex_int="int %s[];", flex_long="long %s[];",
+                  flex_sci="struct {char a; int b;} %s[];")
     if mid in simple:
         return simple[mid] % n
     if mid == "anon_cs":
@@ -64,6 +69,8 @@ def render_layout_case(i, c):
             f.append(' printf(" o%d:%%d:%%d", OFF(%s, x%d), OFF(%s, y%d));' % (j, T, j, T, j))
         elif m.startswith("ubf_"):
             continue
+        elif m.startswith("flex_"):
+            f.append(' printf(" o%d:%%d", OFF(%s, m%d));' % (j, T, j))
         elif m.startswith("bf_"):
             f.append(' memset(&s, 0, sizeof s); s.m%d = -1; img(&s, sizeof s, &a, &b, &c); printf(" b%d:%%d:%%d:%%d", a, b, c);' % (j, j))
         else:
@@ -81,6 +88,8 @@ def expect_layout(i, c):
             out.append("o%d:%d:%d" % (j, p["pos"] // 8, p["pos"] // 8 + 2))
         elif m.startswith("ubf_"):
             continue
+        elif m.startswith("flex_"):
+            out.append("o%d:%d" % (j, p["pos"] // 8))
         elif m.startswith("bf_"):
             out.append("b%d:%d:%d:%d" % (j, p["pos"], p["w"], p["pos"] + p["w"] - 1))
         else:
@@ -89,7 +98,7 @@ def expect_layout(i, c):
     return " ".join(out)
 
 
-def run_batches(ctx, compiler, tree, cases, render, tag, per=250):
+def run_batches(ctx, compiler, tree, cases, render, tag, per=250, prelude_extra=""):
     """Compile batches of cases with `compiler` ("chibicc" from tree, or "gcc"); returns {index: line}."""
     d = ctx.tmp("prog-%s-%s" % (tag, compiler))
     batches = [cases[k:k + per] for k in range(0, len(cases), per)]
@@ -98,7 +107,7 @@ def run_batches(ctx, compiler, tree, cases, render, tag, per=250):
         bi, batch = t
         src = "%s/b%d.c" % (d, bi)
         with open(src, "w") as f:
-            f.write(PRELUDE)
+            f.write(prelude_extra + PRELUDE)
             for i, c in batch:
                 f.write(render(i, c))
             f.write("int main(void) {\n" + "".join(" f%d();\n" % i for i, _ in batch) + " return 0; }\n")
@@ -126,13 +135,14 @@ def run_batches(ctx, compiler, tree, cases, render, tag, per=250):
     return res, failed
 
 
-def bisect_failed(ctx, compiler, tree, failed, render, tag, limit=3):
+def bisect_failed(ctx, compiler, tree, failed, render, tag, limit=3, prelude_extra=""):
     """Batches that do not compile/run: the other cases still have to be judged, and the culprit has
     to be named.  Halve recursively; give up naming culprits after `limit` of them."""
     res, bad = {}, []
 
     def rec(batch, depth):
-        r, f = run_batches(ctx, compiler, tree, batch, render, "%s-bis%d-%d" % (tag, batch[0][0], depth), per=len(batch))
+        r, f = run_batches(ctx, compiler, tree, batch, render, "%s-bis%d-%d" % (tag, batch[0][0], depth), per=len(batch),
+                           prelude_extra=prelude_extra)
         if not f:
             res.update(r)
             return
@@ -177,15 +187,15 @@ def layout_sig(c, exp, got):
                                  ":bitfield" if kinds & {"bf", "ubf"} else "")
 
 
-def compare(ctx, tree, cases, render, expect, tag, sigfn, first=0):
+def compare(ctx, tree, cases, render, expect, tag, sigfn, first=0, prelude_extra=""):
     idx = [(first + k, c) for k, c in enumerate(cases)]
-    res, failed = run_batches(ctx, "chibicc", tree, idx, render, tag)
+    res, failed = run_batches(ctx, "chibicc", tree, idx, render, tag, prelude_extra=prelude_extra)
     if failed:
-        r2, bad = bisect_failed(ctx, "chibicc", tree, failed, render, tag)
+        r2, bad = bisect_failed(ctx, "chibicc", tree, failed, render, tag, prelude_extra=prelude_extra)
         res.update(r2)
         for (i, c), st, rc, out in bad:
             # does gcc accept it?  if not, the case is outside the language and our generator is wrong
-            g, gf = run_batches(ctx, "gcc", tree, [(i, c)], render, tag + "-g%d" % i, per=1)
+            g, gf = run_batches(ctx, "gcc", tree, [(i, c)], render, tag + "-g%d" % i, per=1, prelude_extra=prelude_extra)
             if gf:
                 ctx.oracle_disagreements += 1
                 continue
@@ -200,7 +210,7 @@ def compare(ctx, tree, cases, render, expect, tag, sigfn, first=0):
         if res[i] != exp:
             bad.append((i, c, exp, res[i]))
     if bad:
-        gres, gf = run_batches(ctx, "gcc", tree, [(i, c) for i, c, _, _ in bad], render, tag + "-gcc")
+        gres, gf = run_batches(ctx, "gcc", tree, [(i, c) for i, c, _, _ in bad], render, tag + "-gcc", prelude_extra=prelude_extra)
         for i, c, exp, got in bad:
             if gres.get(i) != exp:
                 ctx.oracle_disagreements += 1        # the spec disagrees with the reference compiler: not chibicc's fault
